@@ -7,11 +7,11 @@
    that are large, too small for a response, or too small for anything.
 
    Requester (`Side = "req"`): states New Start Waiting Idle Closed Resync PartialSync Reset,
-   `nxt` = next_message_index.  Calls: poll, recv(message).
+   `nxt` = next_message_index.  Calls: poll, recv(message), push(message) (= receive_push).
    Responder (`Side = "resp"`): states New Start Send Idle Reset Stopped, `sid` = adopted session
    (0 = none), `graph` in {"none","ok","bad"}, `sent` = responses sent since the last request
    (next_send; the needed segments are abstracted to `Resp` responses for a known graph), `idx` =
-   message_index.  Calls: recv(request), poll(buffer), push.
+   message_index.  Calls: recv(request), poll(buffer), push (first call after a request only).
 
    Both machines are deterministic functions `Apply(state, call)` of the state; the action `Do`
    applies one call.  The property (C18): the requester returns commands only for a SyncResponse
@@ -29,14 +29,15 @@
    state Idle is never entered, so Offer is always a SessionState error.                        *)
 EXTENDS Naturals, Sequences, FiniteSets, TLC, Json
 
-CONSTANTS Side,        \* "req" | "resp"
+CONSTANTS Sides,       \* which machines to explore: subset of {"req", "resp"}
           MaxDepth,    \* calls per behaviour
           Resp         \* responses a fresh session of the responder needs (storage dependent; 2 in the harness)
 
-VARIABLES s,           \* machine state (record)
+VARIABLES Side,        \* "req" | "resp": the machine of this behaviour (fixed by Init)
+          s,           \* machine state (record)
           depth, acc, hist
 
-vars == <<s, depth, acc, hist>>
+vars == <<Side, s, depth, acc, hist>>
 
 OWN == 1            \* the requester's session id / the first id the responder sees
 FOREIGN == 2
@@ -52,7 +53,10 @@ ReqMsgs ==
   [k : {"Response", "Malformed"}, s : {OWN, FOREIGN}, ix : {"next", "skip", "repeat"}]
   \cup [k : {"End"}, s : {OWN, FOREIGN}, ix : {"next", "skip"}]
   \cup [k : {"Offer", "EndSession"}, s : {OWN, FOREIGN}, ix : {"next"}]
+(* `recv` = SyncRequester::receive(bytes); `push` = SyncIncoming::decode of a SyncType::Push carrying
+   the same message, handed to SyncRequester::receive_push — both end in get_sync_commands *)
 ReqCalls == {[call |-> "poll"]} \cup {[call |-> "recv", msg |-> m] : m \in ReqMsgs}
+            \cup {[call |-> "push", msg |-> m] : m \in ReqMsgs}
 
 IxVal(q, m) == CASE m.ix = "next" -> q.nxt [] m.ix = "skip" -> q.nxt + 1
                  [] m.ix = "repeat" -> IF q.nxt = 0 THEN 7 ELSE q.nxt - 1
@@ -106,17 +110,19 @@ RespApply(q, c) ==
     LET m == c.msg
         adopted == IF q.sid = 0 THEN m.s ELSE q.sid          \* the first message fixes the session
     IN IF adopted # m.s THEN [q EXCEPT !.res = "SessionMismatch"]
-       ELSE (CASE m.k = "Request"         -> [q EXCEPT !.sid = adopted, !.st = "Start", !.graph = "ok",  !.sent = 0, !.res = "ok"]
-               [] m.k = "RequestBadGraph" -> [q EXCEPT !.sid = adopted, !.st = "Start", !.graph = "bad", !.sent = 0, !.res = "ok"]
+       ELSE (CASE m.k = "Request"         -> [q EXCEPT !.sid = adopted, !.st = "Start", !.graph = "ok",  !.sent = 0, !.pushed = FALSE, !.res = "ok"]
+               [] m.k = "RequestBadGraph" -> [q EXCEPT !.sid = adopted, !.st = "Start", !.graph = "bad", !.sent = 0, !.pushed = FALSE, !.res = "ok"]
                [] m.k \in {"Missing", "Resume"} -> [q EXCEPT !.sid = adopted, !.st = "Reset", !.res = "UnsupportedRequest"]
                [] m.k = "EndSession"      -> [q EXCEPT !.sid = adopted, !.st = "Stopped", !.res = "ok"])
   ELSE IF c.call = "push" THEN
     \* `push` is public and does not look at the state; without a usable graph it is a usage error
-    \* that resets the machine.  (On a known graph `push` recomputes the needed segments and belongs
-    \* to a fresh responder per push — transports never mix it with `poll`; not modelled: Enabled.)
+    \* that resets the machine.  On a known graph the transports use a fresh responder per push
+    \* (start_session = a SyncRequest, then one push): modelled for exactly that use — the first call
+    \* after a request — after which only a new request is enabled (a second push recomputes the needed
+    \* segments but keeps next_send; mixing push and poll is not a usage pattern: Enabled).
     (CASE q.graph = "none" -> [q EXCEPT !.st = "Reset", !.res = "NotReady"]
        [] q.graph = "bad"  -> [q EXCEPT !.st = "Reset", !.res = "Storage"]
-       [] q.graph = "ok"   -> q)
+       [] q.graph = "ok"   -> [q EXCEPT !.pushed = TRUE, !.idx = q.idx + 1, !.res = "msg:Push"])
   ELSE LET b == c.buf IN
        (CASE q.st \in {"New", "Idle", "Stopped"} -> [q EXCEPT !.res = "NotReady"]
           [] q.st = "Start" -> (IF q.graph = "bad" THEN [q EXCEPT !.st = "Reset", !.res = "Storage"]
@@ -136,14 +142,19 @@ Proj(q) == [st |-> q.st, res |-> q.res, ready |-> Ready(q),
             index |-> IF Side = "req" THEN q.nxt ELSE q.idx]
 
 Init ==
+  /\ Side \in Sides
   /\ s \in (IF Side = "req"
             THEN {[st |-> "New", nxt |-> 0, res |-> "new"], [st |-> "Waiting", nxt |-> 0, res |-> "new_session_id"]}
-            ELSE {[st |-> "New", sid |-> 0, graph |-> "none", sent |-> 0, idx |-> 0, res |-> "new"]})
+            ELSE {[st |-> "New", sid |-> 0, graph |-> "none", sent |-> 0, idx |-> 0, pushed |-> FALSE, res |-> "new"]})
   /\ depth = 0
   /\ acc = <<>>
   /\ hist = <<[call |-> [call |-> "new", how |-> s.res], exp |-> Proj(s)]>>
 
-Enabled(q, c) == c.call = "push" => q.graph # "ok"
+Enabled(q, c) ==
+  IF Side = "req" THEN TRUE
+  ELSE CASE c.call = "push" -> q.graph # "ok" \/ (q.st = "Start" /\ q.sent = 0 /\ ~q.pushed)
+         [] c.call = "poll" -> ~q.pushed
+         [] OTHER -> TRUE
 
 Do(c) ==
   /\ depth < MaxDepth
@@ -152,14 +163,15 @@ Do(c) ==
   /\ s' = Apply(s, c)
   /\ acc' = IF Side = "req"
             THEN (IF s'.res = "cmds" THEN Append(acc, [s |-> c.msg.s, ix |-> IxVal(s, c.msg), expected |-> s.nxt]) ELSE acc)
-            ELSE (IF s'.res = "msg:SyncResponse" THEN Append(acc, [s |-> s.sid, ix |-> s.idx, expected |-> s.idx]) ELSE acc)
+            ELSE (IF s'.res \in {"msg:SyncResponse", "msg:Push"} THEN Append(acc, [s |-> s.sid, ix |-> s.idx, expected |-> s.idx]) ELSE acc)
   /\ hist' = Append(hist, [call |-> c, exp |-> Proj(s')])
+  /\ UNCHANGED Side
 
 Next == \E c \in Calls : Do(c)
 
 Spec == Init /\ [][Next]_vars
 
-View == <<s, depth, acc>>
+View == <<Side, s, depth, acc>>
 
 ----------------------------------------------------------------------------------
 (* C18 (a) as invariants *)
